@@ -327,6 +327,28 @@ def display_family():
   return ["\n".join(L) + "\n"]
 
 
+def super_family():
+  """Cooperative super() under multiple inheritance: the value a method chain returns / an __init__ chain stores is the
+  one CPython's MRO of the *instance's* class yields (diamond, mix-in before a plain class, three bases, two-argument
+  super, a sibling that does not call on), read through every class of the hierarchy."""
+  L = ["class A:", "  def m(self):", "    return 1", "  def __init__(self):", "    self.a = 1",
+       "class B(A):", "  def m(self):", "    return super().m()", "  def __init__(self):", "    super().__init__()",
+       "    self.b = 's'",
+       "class C(A):", "  def m(self):", "    return 's'", "  def __init__(self):", "    super().__init__()",
+       "    self.c = 2.5",
+       "class D(B, C):", "  pass",
+       "class E(C, B):", "  def m(self):", "    return (super().m(), super(C, self).m(), super(B, self).m())",
+       "class Mix:", "  def m(self):", "    return [super().m()]", "  def who(self):", "    return super().who() + (None,)",
+       "class P:", "  def m(self):", "    return b'p'", "  def who(self):", "    return (1,)",
+       "class Q(P):", "  def who(self):", "    return ('q',) + super().who()",
+       "class MP(Mix, P):", "  pass", "class MQ(Mix, Q):", "  pass",
+       "class T(B, Mix, C):", "  def m(self):", "    return {'t': super().m()}",
+       "r1 = D().m()", "r2 = B().m()", "r3 = C().m()", "r4 = E().m()", "r5 = MP().m()", "r6 = MQ().m()", "r7 = MP().who()",
+       "r8 = MQ().who()", "r9 = T().m()", "d = D()", "r10 = (d.a, d.b, d.c)", "e = E()", "r11 = (e.a, e.b, e.c)",
+       "r12 = B().b", "r13 = [x.m() for x in (D(), B())]", "r14 = super(B, D()).m()", "r15 = super(D, D()).m()"]
+  return ["\n".join(L) + "\n"]
+
+
 # --- oracle ---------------------------------------------------------------------------------------------------
 class Skip(Exception):
   pass
